@@ -277,7 +277,33 @@ impl Native {
             // wraps around the address space: the low part is page 0 (unmapped), the high part kernel
             return false;
         }
-        self.host_maps.iter().any(|(a, b)| addr < *b && end > *a)
+        // entirely inside a guest arena or its guard pages: ours
+        if ARENAS.iter().any(|d| addr >= d.base - 0x1000 && end <= d.base + d.len as u64 + 0x1000) {
+            return false;
+        }
+        if self.host_maps.iter().any(|(a, b)| addr < *b && end > *a) {
+            return true;
+        }
+        // kernel half / non-canonical: faults natively without touching anything
+        if addr >> 47 != 0 {
+            return false;
+        }
+        // anywhere else in the user half the host may have mapped something *since* the snapshot (allocator
+        // arenas, thread stacks): look again — a store through a generated address must never land in the
+        // harness's own memory, and a completed access there would be reported as a deviation of the emulator
+        if let Ok(txt) = std::fs::read_to_string("/proc/self/maps") {
+            for l in txt.lines() {
+                let range = l.split_whitespace().next().unwrap_or("");
+                if let Some((a, b)) = range.split_once('-') {
+                    let (a, b) = (u64::from_str_radix(a, 16).unwrap_or(0), u64::from_str_radix(b, 16).unwrap_or(0));
+                    let is_guest = ARENAS.iter().any(|d| a >= d.base - 0x1000 && b <= d.base + d.len as u64 + 0x1000);
+                    if !is_guest && addr < b && end > a {
+                        return true;
+                    }
+                }
+            }
+        }
+        false
     }
 
     /// Execute exactly one instruction natively from `r`.
